@@ -1,9 +1,10 @@
 """C04 - user data rendered from content or preserved as a recoverable hex dump (E1)."""
 import itertools
 import json
+import os
 import re
 
-from mc import core, pelgen, decode, impl, imphook
+from mc import subchunk, core, pelgen, decode, impl, imphook
 from mc.core import ChunkResult
 from mc.ref import hexdump as rhex
 
@@ -85,6 +86,8 @@ def _plan(tier, seed):
     ch.append({'k': 'text_long'})
     ch.append({'k': 'plugin_json'})
     ch.append({'k': 'interleaved'})
+    ch.append({'k': 'cli'})
+    ch += [{'k': 'behaviours', 'optimize': True}, {'k': 'kinds', 'optimize': True}]       # python -O (assertions stripped)
     ch += [{'k': 'builtin_bytes', 'part': i, 'parts': 8} for i in range(8)]
     return ch
 
@@ -176,6 +179,9 @@ LAST = {'mode': None}
 def eval_case(case):
     if 'secs' in case:
         return eval_multi(case)
+    if case.get('cli'):
+        r = run_chunk({'k': 'cli'})
+        return [v for v in r.violations if v['case'] == case]
     LAST['mode'] = 'undecoded'
     impl.ensure(False)
     if not imphook.STATE['installed'] or imphook.BEHAVIOUR != behaviour_table():
@@ -279,6 +285,9 @@ def _sec(kind, payload, comp=0xABCD, sub=9, ver=1, **kw):
 
 
 def run_chunk(chunk):
+    routed = subchunk.route(__name__, chunk)
+    if routed is not None:
+        return routed
     res = ChunkResult()
     k = chunk['k']
     TIER['t'] = chunk.get('tier', 'quick')
@@ -356,6 +365,40 @@ def run_chunk(chunk):
                 core.disarm()
                 res.case(nontrivial_key=json.dumps([combo, plugins]), outcome=vs[0]['key'] if vs else 'ok:interleaved')
                 res.add(vs)
+    elif k == 'cli':
+        # the section layer seen through the command line: what -f prints is the decoded document (text that can be loaded
+        # must also be printable: escaped unpaired surrogates, non-ASCII characters, control characters)
+        import tempfile
+        from mc import clidrv, strictjson
+        texts = [b'{"a": "fan\\ud83d"}', b'{"a": "\\udc00 low", "b": ["\\ud800\\ud800"]}', '{"ort": "Zürich", "k€y": 1}'.encode(),
+                 b'{"ctl": "\\u0000\\u001f\\u007f\\u2028"}', 'naïve text\nline ü'.encode(), b'plain']
+        with tempfile.TemporaryDirectory(prefix='c04_', dir=clidrv.odd_root()) as d:
+            for i, raw in enumerate(texts):
+                for sub in (1, 3):
+                    for kind in ('UD', 'ED'):
+                        sec = _sec(kind, raw, comp=0x2000, sub=sub, ed_creator='O')
+                        case = {'sec': sec, 'cli': True}
+                        p = pelgen.pel_from_spec({'creator': 'O', 'sections': [sec, SENTINEL]})
+                        b = pelgen.encode_pel(p)
+                        path = os.path.join(d, 'p%d_%d_%s' % (i, sub, kind))
+                        with open(path, 'wb') as f:
+                            f.write(b)
+                        r = decode.parse(b)
+                        core.arm(30)
+                        m = clidrv.run_main(['-f', path, '-E'])
+                        core.disarm()
+                        why = None
+                        if r['kind'] != 'doc':
+                            why = 'library: %s %s' % (r['kind'], r.get('msg'))
+                        else:
+                            try:
+                                if m.status != 0 or strictjson.loads(m.stdout) != r['doc']:
+                                    why = '-f (status %s) does not print the decoded document; stderr %r' % (m.status, m.stderr[-160:])
+                            except Exception as e:
+                                why = '-f output unreadable: %s; stderr %r' % (e, m.stderr[-160:])
+                        res.case(nontrivial_key=json.dumps(case, sort_keys=True), outcome='cli:' + ('lost' if why else 'ok'))
+                        if why:
+                            res.violation('C04:cli-section-lost', 'cli-section-lost: %s' % why, case)
     elif k == 'plugin_json':
         # the shipped hardware-diagnostics plug-in hands JSON from the payload (callout FFDC, sub-type 3) back to the tool
         texts = [b'{"Callout List": [{"Priority": 1e999}]}', b'{"Callout List": [NaN, Infinity, -Infinity]}', b'NaN', b'[1e999]',
